@@ -839,5 +839,8 @@ PROPS["C19"]["explanation"] += " (NAMECODE) the words of a table whose index is 
 PROPS["C07"]["rules"] = PROPS["C07"]["rules"] + [rules_loops.rule_single_field_stride]
 PROPS["C07"]["explanation"] += " (ONEFIELD) the user-record size VSread's piece-wise loop advances by has a definition that does not depend on the read list, like its single-field arm."
 
+PROPS["C06"]["rules"] = PROPS["C06"]["rules"] + [rules_conv.rule_element_count_from_type_size]
+PROPS["C06"]["explanation"] += " (ELEMCOUNT) an element count handed to a conversion routine that is a quotient is divided by an element size, not by a literal."
+
 NOT_APPLICABLE = {}
 
